@@ -28,7 +28,8 @@ type vpCaptured struct {
 }
 
 type vpConfig struct {
-	threshold   int // 0 absent, 1 valid "0.5", 2 invalid
+	entries     []git.ConfigEntry // what `git config --list` reports (refgroup definitions)
+	threshold   int               // 0 absent, 1 valid "0.5", 2 invalid
 	names       int // 0 absent, 1 "hash", 2 invalid
 	jsonVersion int // 0 absent, 1 -> 2, 2 -> 3 (invalid)
 	progress    int // 0 absent, 1 true
@@ -41,7 +42,13 @@ func vpInstallMainStubs(cfg *vpConfig, cap *vpCaptured, probe string) {
 	})
 	vp_Stub("(*github.com/github/git-sizer/git.Repository).GitCommand", func(r *git.Repository, args ...string) *exec.Cmd { return &exec.Cmd{} })
 	vp_Stub("(*github.com/github/git-sizer/git.Repository).GetConfig", func(r *git.Repository, prefix string) (*git.Config, error) {
-		return &git.Config{Prefix: prefix}, nil
+		c := git.Config{Prefix: prefix}
+		for _, e := range cfg.entries {
+			if ok, rest := git.VP_KeyMatch(e.Key, prefix); ok {
+				c.Entries = append(c.Entries, git.ConfigEntry{Key: rest, Value: e.Value})
+			}
+		}
+		return &c, nil
 	})
 	vp_Stub("(*github.com/github/git-sizer/git.Repository).ConfigStringDefault", func(r *git.Repository, key string, def string) (string, error) {
 		cfg.consulted[key]++
@@ -299,6 +306,11 @@ func VPH_mainSpellings() {
 		{{"--no-notes"}, {"--exclude", "refs/notes"}},
 		{{"--stash"}, {"--include", "/refs/stash/"}},
 		{{"--no-stash"}, {"--exclude", "/refs/stash/"}},
+		// refgroups from gitconfig: a nested group whose own rule is wider than its parent's
+		{{"--refgroup", "mine.wip"}, {"--include", "@mine.wip"}},
+		{{"--refgroup", "mine"}, {"--include", "@mine"}},
+		{{"--refgroup", "misc.sub"}, {"--include", "@misc.sub"}},
+		{{"--exclude", "refs/heads/a", "--refgroup", "mine.wip"}, {"--exclude", "refs/heads/a", "--include", "@mine.wip"}},
 	}
 	pr := pairs[vp_Choice("pair", len(pairs))]
 	probe := []string{"refs/heads/", "refs/tags/", "refs/st", "refs/remotes/", "refs/notes", "refs/"}[vp_Choice("probe", 6)] + vp_Str("r", 3)
@@ -309,6 +321,12 @@ func VPH_mainSpellings() {
 	var caps [2]*vpCaptured
 	for i := 0; i < 2; i++ {
 		cfg := &vpConfig{consulted: map[string]int{}}
+		cfg.entries = []git.ConfigEntry{
+			{Key: "refgroup.mine.include", Value: "refs/heads"},
+			{Key: "refgroup.mine.wip.include", Value: "refs"},
+			{Key: "refgroup.mine.wip.exclude", Value: "refs/tags/r"},
+			{Key: "refgroup.misc.sub.include", Value: "refs/tags"},
+		}
 		caps[i] = &vpCaptured{}
 		vpInstallMainStubs(cfg, caps[i], probe)
 		var stdout, stderr bytes.Buffer
